@@ -31,7 +31,7 @@ RULE = (
     "one run = 1-2 generated trees (<= 25 nodes, root at index 0, sorted or merely well-formed numbering) and a "
     "history of 5-40 steps: mk (node handle via tree[i] / tree[-k] / tree.node(i) / tree[a:b:c] / iteration / "
     "parent() / children() / Node.branch(); paths from get_paths; branches from get_branches; compartments "
-    "from get_segments; hand-built Path/Branch/Compartment), index (int, negative, slice on a path or branch), "
+    "from get_segments; hand-built Path/Branch/Compartment; a Compartments list mixing segments of several owners), index (int, negative, slice on a path or branch), "
     "write (type/x/y/z/r, and pid = re-parenting, through a Tree.Node handle), write_owner (column write on the owner side of a detached "
     "object or a copy), copy, detach, adj. After EVERY step every live handle is read through all its accessors "
     "and compared with the mirror model. Distinct = distinct event-log digest; non-trivial = >= 3 steps with at "
@@ -56,6 +56,8 @@ ASSUMPTIONS = [
     "local id()/pid() numbering of a path and the id/pid of a detached object are not compared (the statement is "
     "about the attributes of the nodes referred to)",
     "aggregate accessors of an EMPTY Compartments list (single-node tree) are not exercised",
+    "trees may carry an extra per-node column (`level`) and may be constructed from strided column views; both are "
+    "ordinary uses of the public constructor",
 ]
 
 ATTRS = ["type", "x", "y", "z", "r"]
@@ -80,6 +82,12 @@ def gen_model(rng: Prng, n: int) -> dict:
         t2 = {k: [t[k][inv[j]] for j in range(n)] for k in t}
         t2["pid"] = [(-1 if t["pid"][inv[j]] == -1 else perm[t["pid"][inv[j]]]) for j in range(n)]
         t = t2
+    if rng.chance(0.3):
+        # columns handed to the constructor as strided views (the library itself produces such columns,
+        # e.g. the rows of a transposed matrix after an affine transform)
+        t["strided"] = [c for c in ("x", "y", "z", "r", "type") if rng.chance(0.5)]
+    if rng.chance(0.35):
+        t["level"] = [int(rng.below(5)) for _ in range(n)]  # an extra per-node column
     return t
 
 
@@ -90,7 +98,7 @@ def gen_step(rng: Prng) -> dict:
     if k == "mk":
         s["what"] = rng.weighted([("getitem", 3), ("node", 1), ("slice", 2), ("iter", 1), ("parent", 2),
                                   ("children", 3), ("nbranch", 2), ("paths", 3), ("branches", 4), ("segs", 3),
-                                  ("handpath", 2), ("handbranch", 1), ("handseg", 1)])
+                                  ("handpath", 2), ("handbranch", 1), ("handseg", 1), ("mixsegs", 2)])
         s["i"] = rng.randint(-30, 30)
         s["j"] = rng.below(64)
         if s["what"] == "slice":
@@ -99,7 +107,7 @@ def gen_step(rng: Prng) -> dict:
         if s["what"] == "handpath":
             s["ids"] = [rng.below(64) for _ in range(rng.randint(1, 6))]
     elif k in ("write", "write_owner"):
-        s["col"] = rng.choice(ATTRS) if k == "write_owner" or not rng.chance(0.18) else "pid"
+        s["col"] = rng.choice(ATTRS + ["level"]) if k == "write_owner" or not rng.chance(0.18) else "pid"
         s["val"] = rng.randint(1, 4000)
         s["i"] = rng.below(64)
         s["via"] = rng.choice(["attr", "item"])
@@ -132,7 +140,7 @@ class Mismatch(Exception):
 
 def as_list(a, col: str) -> list:
     arr = np.asarray(a)
-    if col == "type" or col in ("id", "pid"):
+    if col in ("type", "id", "pid", "level"):
         return [int(v) for v in arr.reshape(-1)]
     return [float(v) for v in arr.reshape(-1)]
 
@@ -147,13 +155,18 @@ def chk(cond: bool, tag: str, detail: str):
         raise Mismatch(tag, detail)
 
 
+def attrs_of(owner: dict) -> list:
+    return ATTRS + (["level"] if "level" in owner["m"] else [])
+
+
 def read_node(obj, owner: dict, i: int, what: str, full: bool):
     """A node handle must read the attributes of node i of its owner."""
     m = owner["m"]
-    for col in ATTRS:
-        got = getattr(obj, col)
+    for col in attrs_of(owner):
         exp = m[col][i]
-        chk(float(got) == float(exp), "node_read", f"{what}.{col} reads {got!r}, node {i} holds {exp!r}")
+        if col != "level":
+            got = getattr(obj, col)
+            chk(float(got) == float(exp), "node_read", f"{what}.{col} reads {got!r}, node {i} holds {exp!r}")
         got2 = obj[col]
         chk(float(got2) == float(exp), "node_read", f"{what}[{col!r}] reads {got2!r}, node {i} holds {exp!r}")
     xyz = as_list(obj.xyz(), "x")
@@ -168,12 +181,13 @@ def read_node(obj, owner: dict, i: int, what: str, full: bool):
 def read_pathlike(obj, owner: dict, ids: list[int], what: str, deep: bool):
     n = len(ids)
     chk(len(obj) == n, "path_len", f"{what}: len {len(obj)} but it refers to {n} nodes")
-    for col in ATTRS:
+    for col in attrs_of(owner):
         exp = expect_cols(owner, ids, col)
         got = as_list(obj.get_ndata(col), col)
         chk(got == exp, "path_read", f"{what}.get_ndata({col!r}) = {got[:8]} expected {exp[:8]}")
-        got = as_list(getattr(obj, col)(), col)
-        chk(got == exp, "path_read", f"{what}.{col}() = {got[:8]} expected {exp[:8]}")
+        if col != "level":
+            got = as_list(getattr(obj, col)(), col)
+            chk(got == exp, "path_read", f"{what}.{col}() = {got[:8]} expected {exp[:8]}")
         got = as_list(obj[col], col)
         chk(got == exp, "path_read", f"{what}[{col!r}] = {got[:8]} expected {exp[:8]}")
     m = owner["m"]
@@ -212,7 +226,7 @@ def read_tree(owner: dict, what: str):
     tree, m = owner["obj"], owner["m"]
     n = len(m["id"])
     chk(len(tree) == n, "tree_read", f"{what}: len {len(tree)} expected {n}")
-    for col in ATTRS + ["id", "pid"]:
+    for col in attrs_of(owner) + ["id", "pid"]:
         got = as_list(tree[col], col)
         chk(got == m[col], "tree_read", f"{what}[{col!r}] differs from the model: {got[:8]} vs {m[col][:8]}")
         got = as_list(tree.get_ndata(col), col)
@@ -223,7 +237,7 @@ def read_tree(owner: dict, what: str):
 
 def read_dict_owner(owner: dict, what: str):
     d, m = owner["obj"], owner["m"]
-    for col in ATTRS:
+    for col in attrs_of(owner):
         got = as_list(d.get_ndata(col), col)
         chk(got == m[col], "detached_read", f"{what}: column {col} = {got[:8]} expected {m[col][:8]}")
 
@@ -250,6 +264,14 @@ def sweep(owners: list, handles: list, deep_ix: int | None):
             read_pathlike(h["obj"], o, h["ids"], what, deep)
             if deep:
                 read_branch_segments(h["obj"], o, h["ids"], what)
+        elif h["kind"] == "mixsegs":
+            segs, pairs, m = h["obj"], h["ids"], o["m"]
+            k = len(pairs) // 2
+            chk(len(segs) == k, "mixed_segments", f"{what}: {len(segs)} members, expected {k}")
+            for col in ATTRS:
+                got = np.asarray(getattr(segs, col)(), dtype=np.float64).tolist()
+                exp = [[float(m[col][pairs[2 * q]]), float(m[col][pairs[2 * q + 1]])] for q in range(k)]
+                chk(got == exp, "mixed_segments", f"{what}.{col}() does not report its members' node pairs")
         elif h["kind"] == "segs":
             segs = h["obj"]
             m = o["m"]
@@ -291,9 +313,19 @@ def execute(program: dict) -> dict:
         owners: list = []
         handles: list = []
         for tm in program["trees"]:
-            t = common.build_tree(tm, comments=["c"], source="gen")
             n = len(tm["pid"])
-            m = {k: list(tm[k]) for k in ATTRS}
+
+            def col(name, dtype):
+                a = np.array(tm[name], dtype=dtype)
+                if name in tm.get("strided", ()):
+                    a = np.repeat(a, 2)[::2]  # same values, stride of two elements
+                return a
+
+            extra = {"level": np.array(tm["level"], dtype=np.int32)} if "level" in tm else {}
+            t = Tree(n, id=np.arange(n, dtype=np.int32), type=col("type", np.int32), x=col("x", np.float32),
+                     y=col("y", np.float32), z=col("z", np.float32), r=col("r", np.float32),
+                     pid=np.array(tm["pid"], dtype=np.int32), comments=["c"], source="gen", **extra)
+            m = {k: list(tm[k]) for k in ATTRS + (["level"] if "level" in tm else [])}
             m["id"] = list(range(n))
             m["pid"] = list(tm["pid"])
             owners.append({"kind": "tree", "obj": t, "m": m, "idpid": True})
@@ -390,6 +422,28 @@ def execute(program: dict) -> dict:
                         for q in range(min(len(segs), 3)):
                             c = 1 + (step["j"] + q) % (n - 1)
                             add("seg", oi, [m["pid"][c], c], segs[c - 1], "get_segments[k]")
+                    elif what == "mixsegs":
+                        # one Compartments list holding segments of several owners: the segments of two or
+                        # three branches (each attached to its own Branch) and, sometimes, tree segments
+                        from swcgeom.core import Compartments
+
+                        brs = tree.get_branches()
+                        members, pairs = [], []
+                        for q in range(min(len(brs), 3)):
+                            br = brs[(step["j"] + q) % len(brs)]
+                            bids = [int(v) for v in br.idx]
+                            for kk, sg in enumerate(br.get_segments()):
+                                members.append(sg)
+                                pairs += [bids[kk], bids[kk + 1]]
+                        if step["i"] % 2 and n > 1:
+                            tsegs = tree.get_segments()
+                            c = 1 + abs(step["i"]) % (n - 1)
+                            members.append(tsegs[c - 1])
+                            pairs += [m["pid"][c], c]
+                        if not members:
+                            world.log(si, cur_op, "no segment")
+                            continue
+                        add("mixsegs", oi, pairs, Compartments(members), "Compartments(mixed owners)")
                     elif what == "handpath":
                         ids = [v % n for v in step["ids"]]
                         cls = Tree.Path if step["j"] % 2 else Path
@@ -443,7 +497,9 @@ def execute(program: dict) -> dict:
                         continue
                     h = cands[step["h"] % len(cands)]
                     col = step["col"]
-                    val = step["val"] % 8 if col == "type" else f32(step["val"] / 4.0)
+                    if col == "level" and "level" not in owners[h["o"]]["m"]:
+                        col = "type"
+                    val = step["val"] % 8 if col in ("type", "level") else f32(step["val"] / 4.0)
                     if col == "pid":
                         # re-parent node i to a node outside its own subtree (the root keeps no parent)
                         mm = owners[h["o"]]["m"]
@@ -457,7 +513,7 @@ def execute(program: dict) -> dict:
                             q = mm["pid"][q]
                         if q == i:
                             val = 0
-                    if step["via"] == "attr":
+                    if step["via"] == "attr" and col != "level":
                         setattr(h["obj"], col, val)
                     else:
                         h["obj"][col] = val
@@ -472,7 +528,9 @@ def execute(program: dict) -> dict:
                     n = len(o["m"]["x"])
                     i = step["i"] % n
                     col = step["col"]
-                    val = step["val"] % 8 if col == "type" else f32(step["val"] / 4.0)
+                    if col == "level" and "level" not in o["m"]:
+                        col = "type"
+                    val = step["val"] % 8 if col in ("type", "level") else f32(step["val"] / 4.0)
                     o["obj"].ndata[col][i] = val
                     o["m"][col][i] = val
                     if len(handles) >= 2:
@@ -499,7 +557,7 @@ def execute(program: dict) -> dict:
                     o = owners[h["o"]]
                     d = h["obj"].detach()
                     cur_op = f"detach:{h['kind']}"
-                    m = {col: [o["m"][col][i] for i in h["ids"]] for col in ATTRS}
+                    m = {col: [o["m"][col][i] for i in h["ids"]] for col in attrs_of(o)}
                     chk(d is not h["obj"], "detach", "detach() returned the view itself")
                     owners.append({"kind": "dict", "obj": d.attach, "m": m, "idpid": False,
                                    "made_by": f"detach:{h['kind']}"})
@@ -548,7 +606,8 @@ def _drop_leaf(program: dict, ti: int, i: int):
         return None
     p = copy.deepcopy(program)
     for k in p["trees"][ti]:
-        del p["trees"][ti][k][i]
+        if k != "strided":
+            del p["trees"][ti][k][i]
     p["trees"][ti]["pid"] = [(q - 1 if q > i else q) for q in p["trees"][ti]["pid"]]
     return p
 
@@ -561,6 +620,12 @@ def shrink_candidates(program: dict):
             c = _drop_leaf(program, ti, i)
             if c is not None:
                 yield c
+    for ti, t in enumerate(program["trees"]):
+        for key in ("strided", "level"):
+            if key in t:
+                q = copy.deepcopy(program)
+                del q["trees"][ti][key]
+                yield q
     for si, s in enumerate(program["steps"]):
         for key in ("t", "h", "i", "j"):
             if key in s and isinstance(s[key], int) and s[key] != 0:
